@@ -1,4 +1,5 @@
 import Pog.Lemmas.Registry
+import Pog.Props.Loader
 import Pog.Lemmas.GenCode
 /-
   C06 (table part) — status code → exception class.
@@ -10,6 +11,16 @@ import Pog.Lemmas.GenCode
   fallback.  Every table-level fact is re-checked by `decide`/`decide +kernel` against the
   regenerated `Pog/Gen/Status.lean`; the general statements are derived from those facts only.
 -/
+/-
+  C06, "a declared status is handled as declared" at the loader (Pog/Model/Loader.lean mirrors the parameter / request-body / response
+  parsing inside `parse_operations`, `parse_response`, `parse_parameter`, `post_process_operation`; tied by vf/corr/loader.py; proved in
+  Pog/Props/Loader.lean, claimed here):
+    response_status_is_declared_key        for every kept operation the parsed status codes are the keys the responses are DECLARED under, in
+                                           order - also when one `components.responses` entry is referenced under several keys, or a schema is
+                                           referenced directly (an integer key is its decimal string, F16 repaired)
+    dangling_response_ref_is_its_own_node  what a dangling `#/components/responses/X` becomes
+-/
+-- INDEX Pog.LoaderProps: response_status_is_declared_key, normKey_int, response_bad_key_raises, kept_operation_passes_respError, response_ref_resolves, dangling_response_ref_is_its_own_node, dangling_bare_response_ref
 namespace Pog.C06
 open Pog Pog.Reg
 
